@@ -64,13 +64,13 @@ def extra(ctx, sc, r):
 def scenarios(ctx):
     rnd = ctx.rng("c15")
     scs = []
-    maxlen = 4 if ctx.thorough() else 3
+    maxlen = 5 if ctx.thorough() else 3
     alpha = list(OUTCOMES)
     for n in range(1, maxlen + 1):
         for seq in itertools.product(alpha, repeat=n):
             has_silent = "Es" in seq
             for rc in (TPS, 5 * TPS):
-                if n == maxlen and rc == 5 * TPS and not ctx.thorough():
+                if n >= 3 and rc == 5 * TPS and (n >= 4 or not ctx.thorough()):
                     continue
                 if has_silent:
                     # silence only ends by the ping timeout
@@ -121,6 +121,37 @@ def scenarios(ctx):
     return scs
 
 
+def external_scenarios(ctx):
+    """the same worlds through a minimal conforming external dispatcher (real runs + Spec only)."""
+    scs = []
+    alpha = ["R", "J", "Ee", "Ec", "Er", "Ex"]
+    maxlen = 3 if ctx.thorough() else 2
+    for n in range(1, maxlen + 1):
+        for seq in itertools.product(alpha, repeat=n):
+            for rc in ((TPS, 5 * TPS) if n < maxlen else (TPS,)):
+                sc = scenario(seq, rc, "close")
+                sc.update(ext=True, kind="external", horizon=60 * TPS)
+                scs.append(sc)
+                if n == 1:
+                    sc2 = scenario(seq, rc, "close", ka=True)
+                    sc2.update(ext=True, kind="external", to=None, horizon=60 * TPS)
+                    scs.append(sc2)
+    for seq in (("Ee", "R", "Ee"), ("R", "Ee")):
+        for cb, k in (("on_open", 0), ("on_reconnect", 0), ("on_message", 0), ("on_message", 1)):
+            sc = scenario(seq, TPS, "close", plan={cb: "o" * k + "c"})
+            sc.update(ext=True, kind="external-app-close", horizon=60 * TPS)
+            scs.append(sc)
+    return scs
+
+
+def external_extra(ctx, sc, r):
+    extra(ctx, sc, r)
+    if ":raised:" in r["trace"]:
+        ctx.violate("retry", "external-dispatcher-unhandled-exception", sc,
+                    "the loss is handled (handleDisconnect) and a new attempt follows",
+                    r["trace"][-300:], size=appcheck.size_of(sc))
+
+
 def run(ctx):
     ctx.rule = ("dial-outcome sequences to length 3 (thorough 4) over {refused, rejected, est+eof, est+reset, est+silence "
                 "(ping timeout), est+server close, est+protocol error} x r in {1 s, 5 s} x final {server-closed connection, "
@@ -131,6 +162,8 @@ def run(ctx):
         appcheck.evaluate(ctx, "C15", corp, cls_of=lambda sc: "corpus", extra_check=extra, model=False)
     appcheck.evaluate(ctx, "C15", scenarios(ctx), cls_of=cls_of, extra_check=extra,
                       nontrivial_of=lambda sc: len(sc["runs"][0]) > 1)
+    appcheck.evaluate(ctx, "C15", external_scenarios(ctx), cls_of=cls_of, extra_check=external_extra, model=False,
+                      nontrivial_of=lambda sc: len(sc["runs"][0]) > 1)
 
 
 def search(ctx):
@@ -140,4 +173,5 @@ def search(ctx):
 def replay(ctx, data):
     if "input" not in data:
         return appcheck.replay_nofail(ctx, data, run)
-    return appcheck.replay_scenario(ctx, "C15", data, extra_check=extra)
+    ext = bool(data["input"].get("ext"))
+    return appcheck.replay_scenario(ctx, "C15", data, extra_check=external_extra if ext else extra)
